@@ -16,6 +16,7 @@ import (
 	"path"
 	"path/filepath"
 	"regexp"
+	"sort"
 	"strings"
 
 	"dario.cat/mergo"
@@ -346,17 +347,24 @@ func mergePrefixesSuffixes(target *Parser, source *Parser, out *bytes.Buffer) (*
 
 func expandDefinitions(src *bytes.Buffer, variables map[string]string) *bytes.Buffer {
 	logger.Trace().Msgf("expanding definitions in: %v", src.String())
+	// Visit the definitions in a fixed order, so that the result does not depend on map iteration order
+	names := make([]string, 0, len(variables))
+	for name := range variables {
+		names = append(names, name)
+	}
+	sort.Strings(names)
 	// Definitions can contain definitions themeselves
-	for needle, replacement := range variables {
-		needle := "{{" + needle + "}}"
+	for _, name := range names {
+		needle := "{{" + name + "}}"
+		replacement := variables[name]
 		for sourceName, source := range variables {
 			variables[sourceName] = strings.ReplaceAll(source, needle, replacement)
 		}
 	}
 	// Now replace definitions in the rest of the file
-	for needle, replacement := range variables {
-		needle := "{{" + needle + "}}"
-		src = bytes.NewBuffer(bytes.ReplaceAll(src.Bytes(), []byte(needle), []byte(replacement)))
+	for _, name := range names {
+		needle := "{{" + name + "}}"
+		src = bytes.NewBuffer(bytes.ReplaceAll(src.Bytes(), []byte(needle), []byte(variables[name])))
 	}
 	// After all replacements, check if we have dangling names around. They mean that no definition was created
 	// yet, or there is a typo.
